@@ -1,3 +1,3 @@
 From Coq Require Import Extraction ExtrOcamlBasic.
-From MTV Require Import Client.Model Client.Live Client.Rendezvous TL.ReqId.
-Extraction "model.ml" init init2 step step2 run run2 wire_out unacked settle req_msg_id_of xstep plain.
+From MTV Require Import Client.Model Client.Live Client.Rendezvous Client.Table TL.ReqId.
+Extraction "model.ml" init init2 step step2 run run2 wire_out unacked settle req_msg_id_of xstep plain tab_apply set_apply lookup memz.
